@@ -57,7 +57,7 @@ def geometry(res):
     return sorted(sig, key=repr), shapes
 
 
-def _build(kind, name, spec):
+def _build(kind, name, spec, spec_y=None):
     G.reset_names()
     with warnings.catch_warnings():
         warnings.simplefilter("ignore")
@@ -71,10 +71,11 @@ def _build(kind, name, spec):
                 except TypeError as ex:
                     last = ex
             raise last
-        return EP.call_two(name, lambda d, s=(4,), c=(2,): EP._arr("x", spec, d, s, c), lambda d, s=(4,), c=(2,): EP._arr("y", spec, d, s, c))
+        sy = spec if spec_y is None else spec_y
+        return EP.call_two(name, lambda d, s=(4,), c=(2,): EP._arr("x", spec, d, s, c), lambda d, s=(4,), c=(2,): EP._arr("y", sy, d, s, c))
 
 
-def config_independent(kind, name, A, R, variant):
+def config_independent(kind, name, A, R, variant, fresh=0):
     import cubed
 
     sx.assume(R <= A)
@@ -82,10 +83,16 @@ def config_independent(kind, name, A, R, variant):
     v = sx.conc(variant)
     base = _build(kind, name, EP.config_spec())
     g0 = geometry(base)
-    spec = cubed.Spec(work_dir=[None, "/nonexistent-verif", "s3://bucket/verif", None, None][v], allowed_mem=A, reserved_mem=R,
-                      zarr_compressor=["auto", "auto", "auto", None, "auto"][v], executor_name=[None, None, None, None, "single-threaded"][v])
+
+    def mk():
+        return cubed.Spec(work_dir=[None, "/nonexistent-verif", "s3://bucket/verif", None, None][v], allowed_mem=A, reserved_mem=R,
+                          zarr_compressor=["auto", "auto", "auto", None, "auto"][v], executor_name=[None, None, None, None, "single-threaded"][v])
+
+    spec = mk()
+    # "an explicitly passed Spec with equal settings": the second operand may carry ANOTHER Spec object with the same settings
+    spec_y = mk() if (kind == 2 and sx.conc(fresh) == 1) else None
     try:
-        r = _build(kind, name, spec)
+        r = _build(kind, name, spec, spec_y)
     except ValueError as ex:
         raise sx.Violated("rejected-under-an-explicit-spec-but-accepted-under-the-default-configuration", f"{name}: {str(ex)[:200]}") from ex
     g1 = geometry(r)
@@ -94,10 +101,29 @@ def config_independent(kind, name, A, R, variant):
     for o in outs:
         if not hasattr(o, "_plan"):
             continue
-        sx.require(o.spec is spec, "result-array-does-not-carry-the-operands-spec", name)
+        sx.require(o.spec is spec or (spec_y is not None and (o.spec is spec_y or o.spec == spec)), "result-array-does-not-carry-the-operands-spec", name)
         for opname, op in G.all_ops(o._plan.dag):
             sx.require(op.allowed_mem == A and op.reserved_mem == R, "operation-does-not-use-the-explicit-spec's-memory-settings", f"{name}/{opname}: {op.allowed_mem}, {op.reserved_mem}")
             sx.require(op.projected_mem >= R, "projected-memory-does-not-include-reserved-memory", f"{name}/{opname}")
+
+
+def default_equal_explicit(name, swap):
+    """one operand built under the default configuration, the other under an explicit Spec whose settings EQUAL the configuration's:
+    accepted exactly as two default-configuration operands are, with the same recorded geometry"""
+    import cubed
+
+    base = _build(2, name, EP.config_spec())
+    g0 = geometry(base)
+    d = EP.config_spec()
+    explicit = cubed.Spec(work_dir=d.work_dir, allowed_mem=d.allowed_mem, reserved_mem=d.reserved_mem, executor_name=d.executor_name, executor_options=d.executor_options,
+                          storage_options=d.storage_options, zarr_compressor=d.zarr_compressor, intermediate_store=d.intermediate_store)
+    sx.require(explicit == d, "harness: explicit spec does not equal the configuration's")
+    sw = sx.conc(swap)
+    try:
+        r = _build(2, name, explicit if sw else d, d if sw else explicit)
+    except ValueError as ex:
+        raise sx.Violated("rejected-under-an-equal-explicit-spec-but-accepted-under-the-default-configuration", f"{name}: {str(ex)[:200]}") from ex
+    sx.require(geometry(r) == g0, "recorded-geometry-depends-on-the-resource-configuration", name)
 
 
 def buffer_copies_h(wd):
@@ -128,8 +154,12 @@ def obligations(tier):
     o = []
     for kind, names in ((1, one), (2, two), (3, mixed)):
         for nm in names:
-            o.append(Obl(f"config[{nm}/{kind}]", (lambda kind, nm: lambda **kw: config_independent(kind, nm, **kw))(kind, nm), V, setup=G.install, functions=fns, wall_s=wall,
+            o.append(Obl(f"config[{nm}/{kind}]", (lambda kind, nm: lambda **kw: config_independent(kind, nm, **kw))(kind, nm), V + ([("fresh", 0, 1)] if kind == 2 else []), setup=G.install, functions=fns, wall_s=wall,
                          bounds="explicit Spec with symbolic allowed_mem / reserved_mem (up to 1e12) and 5 variants of work_dir (none, local, cloud) / compressor (auto, none) / executor, versus the default configuration",
                          outside="values across real stores and codecs; intermediate_store objects", stubs=["geom metadata arrays"], witness_rule=lambda m: m["variant"] != 0))
+    for nm in two:
+        o.append(Obl(f"default+equal-explicit[{nm}]", (lambda nm: lambda **kw: default_equal_explicit(nm, **kw))(nm), [("swap", 0, 1)], setup=G.install, functions=fns, wall_s=wall,
+                     bounds="one operand under the default configuration, the other under an explicit Spec object with the configuration's settings, in either position",
+                     outside="values", stubs=["geom metadata arrays"]))
     o.append(Obl("buffer-copies", buffer_copies_h, [("wd", 0, 5)], functions=[pm.get_buffer_copies], wall_s=60, bounds="work_dir in {None, local path, file://, s3://, gs://, az://}"))
     return o
